@@ -17,6 +17,7 @@
 #define _xhostlist_ranged_string _cli_xhostlist_ranged_string
 #define CHUNKSIZE CLI_CHUNKSIZE_UNUSED
 #define _handle_write _cli_handle_write
+#include "parse_util.c"   /* static conf_aliases: dumped for the model */
 #include "client.c"
 #undef _handle_read
 #undef _xhostlist_ranged_string
@@ -154,6 +155,12 @@ int main(int ac, char**av){
         { PlugListIterator it = pluglist_iterator_create(dev->plugs); Plug *p; while ((p = pluglist_next(it))) { printf("G "); hexout((unsigned char*)p->name, strlen(p->name)); printf(" "); if (p->node) hexout((unsigned char*)p->node, strlen(p->node)); else printf("null"); printf("\n"); } pluglist_iterator_destroy(it); }
         for (int i = 0; i < NUM_SCRIPTS; i++) if (dev->scripts[i]) { printf("S %d %d", i, list_count(dev->scripts[i])); dump_stmts(dev->scripts[i]); printf("\n"); } }
       list_iterator_destroy(di); }
+    if (conf_aliases) { ListIterator ai = list_iterator_create(conf_aliases); alias_t *a;
+      while ((a = list_next(ai))) { printf("AL "); hexout((unsigned char*)a->name, strlen(a->name));
+        hostlist_iterator_t hi = hostlist_iterator_create(a->hl); char *h;
+        while ((h = hostlist_next(hi))) { printf(" "); hexout((unsigned char*)h, strlen(h)); free(h); }
+        hostlist_iterator_destroy(hi); printf("\n"); }
+      list_iterator_destroy(ai); }
     printf("V "); hexout((unsigned char*)PACKAGE_VERSION, strlen(PACKAGE_VERSION)); printf("\n");
     printf("READY\n"); fflush(stdout);
     static char line[1<<20];
